@@ -44,3 +44,6 @@ m = {
 }
 json.dump(m, open(os.path.join(ROOT, 'MANIFEST.json'), 'w'), indent=1)
 print(f'{len(checks)} checks, {len(na)} not claimed')
+
+import subprocess, sys, os
+subprocess.run([sys.executable, os.path.join(ROOT, 'tools', 'asbuilt.py')])
